@@ -111,6 +111,7 @@ def exWorld : World symPrims where
     | .accept => true
     | .sendSKX => true
     | _ => false
+  reenc := fun _ m => m
 
 def forwarder : Attacker where
   next := fun outs delivered =>
@@ -149,6 +150,62 @@ def flipper : Attacker where
 set_option maxRecDepth 100000 in
 example :
     let g := Global.run tlcpCodes tlcpFlags exWorld flipper 40 (Global.init tlcpCodes exWorld)
+    g.c.status ≠ .done ∧ g.s.status ≠ .done := by
+  decide
+
+/-! ### which bytes of a received message the Finished exchange covers
+
+Several received messages are read with `transcript = nil` and added to the hash afterwards by
+`transcriptMsg` (ServerHello on the client; ClientHello and CertificateVerify — on the datagram
+stack also Certificate and ClientKeyExchange — on the server; the peer's Finished on both).
+`transcriptMsg` hashes `marshal()` of the DECODED message: the bytes that were received when
+`unmarshal` kept them in `raw` and `marshal` returns `raw`, a re-encoding of the parsed fields
+otherwise.  That is the regenerated flag `decodedKeepRaw`, part of `TFlags.sound`. -/
+
+/-- With the flag, what `transcriptMsg` hashes for a decoded message is the message as received. -/
+theorem C03_decoded_message_hashed_as_received (hf : f.sound = true) (r : Role) (m : Msg) :
+    asMarshalled f W r m = m :=
+  asMarshalled_eq (flagsTrue hf) W r m
+
+/-- Hence, in every reachable completed state, the content of `finishedHash` is exactly the
+endpoint's history: every handshake message it sent and every handshake message it accepted, in
+order and byte for byte (nothing a decoder skipped is left out of the Finished computation). -/
+theorem C03_finished_hash_covers_history (hk : k.ok = true) (hf : f.sound = true) {h : HS P}
+    (hr : Reach k f W h) (hd : h.ctl = .done) : h.transcript = msgsOf h.log := by
+  have sh : Shape k h := reach_shape W hk hf hr
+  simp only [Shape, hd] at sh
+  obtain ⟨A, s, t⟩ := sh
+  exact t.trans
+
+/-- The flag is necessary (the model mirrors the code including this defect): when the client's
+ServerHello decoder does not keep the received bytes and the re-encoding forgets a trailing byte
+the decoder skips, the attacker who appends one such byte to the ServerHello (framing fixed up)
+is not detected — both endpoints complete although the ServerHello the client accepted is not
+the one the server sent. -/
+def lossyFlags : TFlags := { tlcpFlags with decodedKeepRaw := false }
+
+def lossyWorld : World symPrims :=
+  { exWorld with reenc := fun _ m => if mtype m = tlcpCodes.tSH then frame (mtype m) (mbody m).dropLast else m }
+
+def padder : Attacker where
+  next := fun outs delivered =>
+    match forwarder.next outs delivered with
+    | some (Role.client, r) =>
+      if (delivered.filter (fun p => p.1 = Role.client)).length = 0 then
+        some (Role.client, { r with payload := frame (mtype r.payload) (mbody r.payload ++ [0xEE]) })
+      else some (Role.client, r)
+    | x => x
+
+set_option maxRecDepth 100000 in
+example :
+    let g := Global.run tlcpCodes lossyFlags lossyWorld padder 40 (Global.init tlcpCodes lossyWorld)
+    g.c.status = .done ∧ g.s.status = .done ∧ acceptedOf g.c.hs.log ≠ sentOf g.s.hs.log := by
+  decide
+
+-- … and with the flag as extracted from this tree the same attacker is refused
+set_option maxRecDepth 100000 in
+example :
+    let g := Global.run tlcpCodes tlcpFlags lossyWorld padder 40 (Global.init tlcpCodes lossyWorld)
     g.c.status ≠ .done ∧ g.s.status ≠ .done := by
   decide
 
@@ -304,7 +361,9 @@ end dy
 and both stacks perform exactly the transcript operations the model assumes (ClientHello and
 ServerHello added by `transcriptMsg` in that order, every message of the full handshake
 written / read with the hash or added right after, Finished and CertificateVerify read with
-`nil` and added only after the check, Finished compared over its whole length); the stream
+`nil` and added only after the check, Finished compared over its whole length; a received
+message enters the hash with the bytes that were received — `readHandshake` hashes the `data` it
+decoded and every type handed to `transcriptMsg` keeps its decoded bytes in `raw`); the stream
 stack keeps the record-layer guards (version compared only under `haveVers`, ChangeCipherSpec
 only when expected and with an empty handshake buffer, no handshake record while a
 ChangeCipherSpec is expected); the datagram stack keeps the cookie prelude (first ClientHello,
@@ -322,6 +381,15 @@ theorem C03_facts :
     Facts.dtlcp.trClientHandshake = ["W:hello:nil", "R:nil"] ∧
     Facts.dtlcp.trServerHandshake = ["W:hvr:nil"] ∧
     Facts.dtlcp.trClientHSAdds = ["hs.hello", "hs.serverHello"] ∧
+    -- received bytes enter the hash: `readHandshake(hash)` writes the `data` it decoded, and
+    -- every message type handed to `transcriptMsg` keeps the decoded bytes (`decodedKeepRaw`,
+    -- part of `sound`; spelled out here)
+    Facts.tlcp.trReadHandshakeHashed = ["data"] ∧ Facts.tlcp.trReadHandshakeDecoded = ["data"] ∧
+    Facts.dtlcp.trReadHandshakeHashed = ["data"] ∧ Facts.dtlcp.trReadHandshakeDecoded = ["data"] ∧
+    tlcpFlags.decodedKeepRaw = true ∧ dtlcpFlags.decodedKeepRaw = true ∧
+    Facts.tlcp.trAddedTypes = ["certificateVerifyMsg", "clientHelloMsg", "finishedMsg", "serverHelloMsg"] ∧
+    Facts.dtlcp.trAddedTypes = ["certificateMsg", "certificateVerifyMsg", "clientHelloMsg", "clientKeyExchangeMsg",
+      "finishedMsg", "serverHelloMsg"] ∧
     Facts.missing = [] := by decide
 
 end Gotlcp.Props.C03
